@@ -55,6 +55,44 @@ type c08Nuisance struct {
 	Env      map[string]string // variables set for the run
 	Restarts map[int]bool      // restart before op i
 	Queries  map[int]bool      // run read-only queries before op i
+	Epoch    int64             // all block times shifted by this many seconds (third execution only)
+}
+
+// c08Abstract describes a block without anything that contains an absolute time: transaction outcomes, the kinds of
+// events, validator updates, the number of messages in every consensus queue and the current snapshot id. Two executions
+// of one history whose clocks differ by a constant must agree on it.
+func c08Abstract(c *chain.Chain, res *abci.ResponseFinalizeBlock) string {
+	var parts []string
+	for i, r := range res.TxResults {
+		parts = append(parts, fmt.Sprintf("tx%d=%d/%s", i, r.Code, r.Codespace))
+	}
+	kinds := map[string]int{}
+	for _, e := range res.Events {
+		kinds[e.Type]++
+	}
+	for _, r := range res.TxResults {
+		for _, e := range r.Events {
+			kinds[e.Type]++
+		}
+	}
+	ks := make([]string, 0, len(kinds))
+	for k, n := range kinds {
+		ks = append(ks, fmt.Sprintf("%s*%d", k, n))
+	}
+	sort.Strings(ks)
+	parts = append(parts, strings.Join(ks, ","))
+	parts = append(parts, fmt.Sprintf("valUpdates=%d", len(res.ValidatorUpdates)))
+	ctx := c.ReadCtx()
+	for _, ec := range c08Chains {
+		for _, sub := range []string{"evm-turnstone-message", "validators-balances", "reference-block"} {
+			ms, _ := c.App.ConsensusKeeper.GetMessagesFromQueue(ctx, consensustypes.Queue(sub, "evm", ec.RefID), 0)
+			parts = append(parts, fmt.Sprintf("%s/%s=%d", ec.RefID, sub, len(ms)))
+		}
+	}
+	if snap, err := c.App.ValsetKeeper.GetCurrentSnapshot(ctx); err == nil && snap != nil {
+		parts = append(parts, fmt.Sprintf("snapshot=%d/%d", snap.Id, len(snap.Validators)))
+	}
+	return strings.Join(parts, " ")
 }
 
 func c08Digest(res *abci.ResponseFinalizeBlock) (string, []string) {
@@ -76,7 +114,7 @@ func c08Digest(res *abci.ResponseFinalizeBlock) (string, []string) {
 }
 
 // c08Run executes the history on a fresh chain and returns one digest per block.
-func c08Run(t *rapid.T, salt string, stakes []int64, ops []c08Op, nu c08Nuisance) (digests []string, details [][]string, labels map[string]bool) {
+func c08Run(t *rapid.T, salt string, stakes []int64, ops []c08Op, nu c08Nuisance) (digests []string, details [][]string, labels map[string]bool, abstract []string) {
 	labels = map[string]bool{}
 	for k, v := range nu.Env {
 		os.Setenv(k, v)
@@ -93,7 +131,7 @@ func c08Run(t *rapid.T, salt string, stakes []int64, ops []c08Op, nu c08Nuisance
 		time.Local = time.FixedZone("LINT", 14*3600) // Pacific/Kiritimati
 		defer func() { time.Local = old }()
 	}
-	c, err := chain.New(chain.Options{Salt: salt, Stakes: stakes, InitialHeight: 544, Users: []string{"ua", "ub"}, EvmChains: c08Chains})
+	c, err := chain.New(chain.Options{Salt: salt, Stakes: stakes, InitialHeight: 544, Users: []string{"ua", "ub"}, EvmChains: c08Chains, EpochShift: nu.Epoch})
 	if err != nil {
 		t.Fatalf("boot: %v", err)
 	}
@@ -105,6 +143,7 @@ func c08Run(t *rapid.T, salt string, stakes []int64, ops []c08Op, nu c08Nuisance
 		d, parts := c08Digest(res)
 		digests = append(digests, d)
 		details = append(details, parts)
+		abstract = append(abstract, c08Abstract(c, res))
 	}
 	block := func(txs ...[]byte) { rec(c.Block(txs...)) }
 	// setup (same in both runs)
@@ -268,7 +307,7 @@ func c08Run(t *rapid.T, salt string, stakes []int64, ops []c08Op, nu c08Nuisance
 			labels["snapshotBuildHeight"] = true
 		}
 	}
-	return digests, details, labels
+	return digests, details, labels, abstract
 }
 
 func TestC08_TwinExecutionsAgree(t *testing.T) {
@@ -321,8 +360,26 @@ func TestC08_TwinExecutionsAgree(t *testing.T) {
 				nuB.Queries[i] = true
 			}
 		}
-		dA, detA, labA := c08Run(t, salt, stakes, ops, nuA)
-		dB, detB, labB := c08Run(t, salt, stakes, ops, nuB)
+		dA, detA, labA, absA := c08Run(t, salt, stakes, ops, nuA)
+		dB, detB, labB, _ := c08Run(t, salt, stakes, ops, nuB)
+		// Third execution, in a third of the cases: the same history on a chain whose clock runs in the year 2100 instead
+		// of 2023 (all block times moved by a constant, so every difference between chain times is unchanged; the
+		// machine's own clock lies between the two). Byte equality is not expected - times are part of the state - but
+		// the time-free description of every block must be the same: chain logic may look at chain time only.
+		if rapid.IntRange(0, 2).Draw(t, "thirdRunInAnotherEpoch") == 0 {
+			nuC := c08Nuisance{Env: map[string]string{}, Restarts: map[int]bool{}, Queries: map[int]bool{}, Epoch: 4102444800 - chain.T0}
+			_, _, _, absC := c08Run(t, salt, stakes, ops, nuC)
+			if len(absA) != len(absC) {
+				t.Fatalf("executions in two epochs produced %d and %d blocks", len(absA), len(absC))
+			}
+			for i := range absA {
+				if absA[i] != absC[i] {
+					opsJSON, _ := json.Marshal(ops)
+					t.Fatalf("the same history gives different results when the chain's clock stands in 2100 instead of 2023 (block index %d)\n    2023: %s\n    2100: %s\nhistory: %s", i, absA[i], absC[i], opsJSON)
+				}
+			}
+			labA["epochShiftRun"] = true
+		}
 		if len(dA) != len(dB) {
 			t.Fatalf("twin executions produced %d and %d blocks", len(dA), len(dB))
 		}
